@@ -36,6 +36,12 @@ def get_attr(I, st, base, attr, node):
                 r = class_attr(I, st, o.pyclass, attr, base, node)
                 if r is not _MISSING:
                     return r
+            if o.pyclass is None:
+                # a record the contract made up to stand for a real object, without the real class behind it: whether the real object has
+                # this attribute is not known to the model - the contract does not describe this version of the code (undecided, never a
+                # violation; the property's native replayer decides)
+                from .state import ContractError
+                raise ContractError(f"contract does not bind: the model record '{o.cls}' of this contract has no attribute '{attr}' (line {site})")
             raise SymRaise(ClassVal("AttributeError", AttributeError), st, f"'{o.cls}' object has no attribute '{attr}'", site)
         if isinstance(o, (ListObj, DictObj, SetObj, FrameObj)):
             return BoundMethod(base, attr)
